@@ -55,7 +55,11 @@ fn expected(kind: u8, model: &View, own: &ArrProps) -> View {
 
 /// A symbolic well-nested program: at each level up to two sibling frames of symbolic kind and entry
 /// API, recursing inside.
-fn level(ctxt: &ArrCtxt, other: &ArrCtxt, depth: usize, model: View, max_sibs: usize) {
+fn level(ctxt: &ArrCtxt, other: &ArrCtxt, depth: usize, model: View, max_sibs: usize) { level_api(ctxt, other, depth, model, max_sibs, 9) }
+
+/// `outer_api` < 4 fixes the entry API of the frames at THIS level (the levels below stay symbolic): lets one program
+/// family be split into parallel harnesses.
+fn level_api(ctxt: &ArrCtxt, other: &ArrCtxt, depth: usize, model: View, max_sibs: usize, outer_api: u8) {
     assert!(same_view(&ctxt.view(), &model), "ambient view is that of the innermost active frame");
     assert!(same_view(&other.view(), &[Val::None; 6]), "nothing leaks to another context instance");
     if depth == 0 { return; }
@@ -70,7 +74,7 @@ fn level(ctxt: &ArrCtxt, other: &ArrCtxt, depth: usize, model: View, max_sibs: u
             let want = expected(kind, &model, &own);
             let mut frame = open(ctxt, kind, own);
             assert!(same_view(&ctxt.view(), &model), "creating a frame does not change what is ambient");
-            let api: u8 = kani::any();
+            let api: u8 = if outer_api < 4 { outer_api } else { kani::any() };
             kani::assume(api <= 3);
             match api {
                 0 => {
@@ -95,16 +99,27 @@ fn level(ctxt: &ArrCtxt, other: &ArrCtxt, depth: usize, model: View, max_sibs: u
     }
 }
 
-/// two nested levels, one frame per level (plus optional re-entry)
-#[kani::proof]
-#[kani::unwind(13)]
-pub fn c03_q_nested_frames_chain2() {
+/// two nested levels, one frame per level (plus optional re-entry); one harness per entry API of the OUTER frame
+/// (the inner frame's kind and API stay symbolic) so that they run in parallel (one harness took 540 s)
+fn chain2(outer_api: u8) {
     let ctxt = ArrCtxt::new();
     let other = ArrCtxt::new();
-    level(&ctxt, &other, 2, [Val::None; 6], 1);
+    level_api(&ctxt, &other, 2, [Val::None; 6], 1, outer_api);
     assert!(ctxt.enters.get() == ctxt.exits.get(), "every enter is matched by an exit");
     kani::cover!(ctxt.enters.get() >= 2, "two nested frames entered");
 }
+
+#[kani::proof]
+#[kani::unwind(13)]
+pub fn c03_q_nested_chain2_outer_enter() { chain2(0); }
+
+#[kani::proof]
+#[kani::unwind(13)]
+pub fn c03_q_nested_chain2_outer_call() { chain2(1); }
+
+#[kani::proof]
+#[kani::unwind(13)]
+pub fn c03_q_nested_chain2_outer_in_fn() { chain2(3); }
 
 /// one level, up to two sibling frames one after the other
 #[kani::proof]
